@@ -727,6 +727,9 @@ impl Ctx {
 
 pub type Job<'a> = Box<dyn FnOnce() + Send + 'a>;
 
+/// panics that escaped from a job of the harness itself: the run is INCONCLUSIVE (exit 2) unless it found a violation
+pub static JOB_PANICS: Mutex<Vec<String>> = Mutex::new(Vec::new());
+
 pub fn run_jobs(jobs: Vec<Job<'_>>) {
   let threads = std::env::var("PV_THREADS").ok().and_then(|s| s.parse().ok()).unwrap_or(16usize).max(1);
   let queue = Mutex::new(jobs.into_iter().collect::<std::collections::VecDeque<_>>());
@@ -735,7 +738,12 @@ pub fn run_jobs(jobs: Vec<Job<'_>>) {
       s.spawn(|| loop {
         let job = queue.lock().unwrap().pop_front();
         match job {
-          Some(j) => j(),
+          // a panic inside a job (case construction, harness arithmetic) must not take the whole run down silently
+          Some(j) => {
+            if let Err((loc, msg)) = catch(j) {
+              JOB_PANICS.lock().unwrap().push(format!("{loc}: {msg}"));
+            }
+          }
           None => break,
         }
       });
@@ -947,6 +955,11 @@ pub fn finish(ctx: Ctx, meta: EvidenceMeta) -> Outcome {
     wall
   );
   if exit_code == 0 && harness_bug {
+    exit_code = 2;
+  }
+  let job_panics = JOB_PANICS.lock().unwrap().clone();
+  if exit_code == 0 && !job_panics.is_empty() {
+    println!("INCONCLUSIVE: {} job(s) of the harness panicked, e.g. at {}", job_panics.len(), job_panics[0].chars().take(300).collect::<String>());
     exit_code = 2;
   }
   let timeouts = HELPER_TIMEOUTS.lock().unwrap().clone();
